@@ -33,13 +33,16 @@ VARIABLES
     tornSince,  \* tornSince[l]: l was torn down (timeout / send failure) since it last connected
     upSince,    \* upSince[l]: since when l's path has delivered in both directions (-1: it does not)
     quietSince, \* since when the receiver has been answering everything and nothing else interfered
+    connAt,     \* some link was connected when that quiet period began, or when a path came back during it:
+                \* only then does the rejoin bound have to allow for the configured timeout (the time it takes to
+                \* NOTICE that a still-connected link -- this one, or one that keeps the old group alive -- is dead)
     act
 
-vars == <<heard, born, regErr, everUp, lastTry, conn, tornSince, upSince, quietSince, act>>
+vars == <<heard, born, regErr, everUp, lastTry, conn, tornSince, upSince, quietSince, connAt, act>>
 
 Init == /\ heard = [l \in Links |-> -1] /\ born = [l \in Links |-> 0] /\ regErr = [l \in Links |-> FALSE]
         /\ everUp = [l \in Links |-> FALSE] /\ lastTry = [l \in Links |-> -1]
-        /\ conn = [l \in Links |-> FALSE] /\ tornSince = [l \in Links |-> FALSE] /\ upSince = [l \in Links |-> 0] /\ quietSince = 0 /\ act = "Init"
+        /\ conn = [l \in Links |-> FALSE] /\ tornSince = [l \in Links |-> FALSE] /\ upSince = [l \in Links |-> 0] /\ quietSince = 0 /\ connAt = TRUE /\ act = "Init"
 
 (* silent for the configured timeout at time t -- from the monitor's own record *)
 Silent(l, t, timeout) ==
@@ -69,7 +72,7 @@ Pass(t, timeout, stale, torn, conn1) ==
     /\ regErr' = [l \in Links |-> IF l \in torn THEN FALSE ELSE regErr[l]]
     /\ conn' = conn1
     /\ tornSince' = [l \in Links |-> IF l \in torn THEN TRUE ELSE tornSince[l]]
-    /\ UNCHANGED <<everUp, upSince, quietSince>>
+    /\ UNCHANGED <<everUp, upSince, quietSince, connAt>>
 
 (* a datagram arrives on l at time t *)
 (* stray: the datagram was not an answer of the receiver (arbitrary traffic reaching the uplink socket): it
@@ -87,6 +90,7 @@ Arrive(l, t, cls, len, conn1, rejoin, stray) ==
     /\ conn' = conn1
     /\ tornSince' = [tornSince EXCEPT ![l] = IF len >= 2 /\ cls = "reg3" THEN FALSE ELSE @]
     /\ quietSince' = IF stray THEN t ELSE quietSince
+    /\ connAt' = IF stray THEN (\E k \in Links : conn1[k]) ELSE connAt
     /\ UNCHANGED <<born, lastTry, upSince>>
 
 (* a send on l's socket fails during a flush: soft teardown (mark_for_recovery) *)
@@ -97,23 +101,24 @@ SendFailure(R, t, conn1) ==
     /\ regErr' = [l \in Links |-> IF l \in R THEN FALSE ELSE regErr[l]]
     /\ conn' = conn1
     /\ tornSince' = [l \in Links |-> IF l \in R THEN TRUE ELSE tornSince[l]]
-    /\ UNCHANGED <<everUp, lastTry, upSince, quietSince>>
+    /\ UNCHANGED <<everUp, lastTry, upSince, quietSince, connAt>>
 
 (* the environment: the path of l goes down / comes back; something interferes (a reply is lost, the receiver
    forgets the group, a stray datagram, a send failure is injected, the timeout is reconfigured) *)
 PathDown(l) == /\ act' = "Env" /\ upSince' = [upSince EXCEPT ![l] = -1]
-               /\ UNCHANGED <<heard, born, regErr, everUp, lastTry, conn, tornSince, quietSince>>
+               /\ UNCHANGED <<heard, born, regErr, everUp, lastTry, conn, tornSince, quietSince, connAt>>
 PathUp(l, t) == /\ act' = "Env" /\ upSince' = [upSince EXCEPT ![l] = IF @ = -1 THEN t ELSE @]
+                /\ connAt' = (connAt \/ \E k \in Links : conn[k])
                 /\ UNCHANGED <<heard, born, regErr, everUp, lastTry, conn, tornSince, quietSince>>
-Interfere(t) == /\ act' = "Env" /\ quietSince' = t
+Interfere(t) == /\ act' = "Env" /\ quietSince' = t /\ connAt' = (\E k \in Links : conn[k])
                 /\ UNCHANGED <<heard, born, regErr, everUp, lastTry, conn, tornSince, upSince>>
 Quiet(conn1) == /\ act' = "Quiet" /\ conn' = conn1
-                /\ UNCHANGED <<heard, born, regErr, everUp, lastTry, tornSince, upSince, quietSince>>
+                /\ UNCHANGED <<heard, born, regErr, everUp, lastTry, tornSince, upSince, quietSince, connAt>>
 
 (* ======================= the property (C08) ======================= *)
 (* once the path delivers again and the receiver answers, the link is connected within 30 s -- not counting
    the time the configured timeout itself takes to notice that a still-connected link has gone silent *)
-Rejoins(t, timeout) == \A l \in Links :
-    (upSince[l] # -1 /\ t - upSince[l] > RejoinBound + timeout + Period
-                    /\ t - quietSince > RejoinBound + timeout + Period) => conn[l]
+Rejoins(t, timeout) ==
+    LET B == RejoinBound + Period + (IF connAt THEN timeout ELSE 0) IN
+    \A l \in Links : (upSince[l] # -1 /\ t - upSince[l] > B /\ t - quietSince > B) => conn[l]
 =============================================================================
